@@ -281,3 +281,12 @@ def operand(seed, shape, dt, gen="int"):
     if dt in CPLX:
         a = a + 1j * rng.standard_normal(tuple(shape))
     return a.astype(DT[dt])
+
+
+def count_form(v, seed):
+    """An iteration count / size argument spelled as callers legitimately spell it: mostly a Python int, sometimes the NumPy
+    integer that np.arange, np.minimum, .shape arithmetic or len-of-array code hands around (np.int64, np.int32, np.intp)."""
+    if v is None:
+        return None
+    r = int(seed) % 5
+    return {3: np.int64, 4: np.int32}.get(r, int)(v)
